@@ -1024,6 +1024,11 @@ ASerializable* makeVario(Rng& r)
   {
     VarioParam vp(attempt == 0 && r.chance(0.3) ? r.uniform(0.1, 2.) : 0.);
     int ndir = attempt == 2 ? 1 : (int)r.range(1, 3);
+    static const std::vector<ECalcVario> CALC = {ECalcVario::VARIOGRAM, ECalcVario::VARIOGRAM, ECalcVario::VARIOGRAM,
+                                                 ECalcVario::COVARIANCE, ECalcVario::COVARIOGRAM, ECalcVario::MADOGRAM,
+                                                 ECalcVario::RODOGRAM, ECalcVario::COVARIANCE_NC};
+    ECalcVario calc = attempt == 0 ? r.pick(CALC) : ECalcVario::VARIOGRAM;
+    int npasAll = -1;
     for (int id = 0; id < ndir; id++)
     {
       VectorDouble codir(ndim);
@@ -1033,6 +1038,9 @@ ASerializable* makeVario(Rng& r)
       for (auto& c : codir) c /= std::sqrt(nn);
       if (r.chance(0.3)) { for (auto& c : codir) c = 0.; codir[r.below(ndim)] = 1.; }
       int npas = (int)r.range(1, 12);
+      // the transitive covariogram overruns its result arrays when directions differ in lag count
+      // (Vario::updateGgByIndex): such a Vario cannot be built, keep one lag count for that calculation
+      if (calc == ECalcVario::COVARIOGRAM) { if (npasAll < 0) npasAll = npas; npas = npasAll; }
       double dpas = r.chance(0.3) ? 1. : r.uniform(0.3, 3.);
       double toldis = r.chance(0.5) ? 0.5 : r.uniform(0.1, 0.5);
       double tolang = (ndim > 1 && attempt == 0) ? r.uniform(10., 90.) : 90.;
@@ -1041,10 +1049,6 @@ ASerializable* makeVario(Rng& r)
       DirParam dp(npas, dpas, toldis, tolang, 0, 0, bench, cylrad, 0., VectorDouble(), codir, TEST, &sp);
       vp.addDir(dp);
     }
-    static const std::vector<ECalcVario> CALC = {ECalcVario::VARIOGRAM, ECalcVario::VARIOGRAM, ECalcVario::VARIOGRAM,
-                                                 ECalcVario::COVARIANCE, ECalcVario::COVARIOGRAM, ECalcVario::MADOGRAM,
-                                                 ECalcVario::RODOGRAM, ECalcVario::COVARIANCE_NC};
-    ECalcVario calc = attempt == 0 ? r.pick(CALC) : ECalcVario::VARIOGRAM;
     v = Vario::computeFromDb(vp, db, calc);
     if (v == nullptr && attempt == 2) v = Vario::create(vp);
   }
@@ -1481,6 +1485,8 @@ std::string consistentAnam(const ASerializable* o)
     if ((int)k->getZCut().size() != k->getNCut()) return "cutoffs not sized by ncut";
     if (k->getStats().getNRows() != k->getNClass() || k->getStats().getNCols() != k->getNElem())
       return "statistics not sized nclass x nelem";
+    if ((long)k->getStats().getValues().size() != (long)k->getNClass() * k->getNElem()) return "statistics storage not sized nclass x nelem";
+    if (k->getNElem() < 6) return "fewer than 6 statistics per class"; // the per-class getters address columns 0..5
   }
   if (const AnamDiscreteDD* q = dynamic_cast<const AnamDiscreteDD*>(o))
   {
@@ -1601,8 +1607,11 @@ std::string consistentMesh(const ASerializable* o)
   {
     const Grid& g = t->getGrid();
     if (g.getNDim() != ndim) return "grid dimension differs";
+    if (ndim > 3) return "turbo meshing only exists for 1 to 3 dimensions";
     if (ndim > 0 && g.getNTotal() > 100000) return "";
     for (int k = 0; k < ndim; k++) if (g.getNX(k) < 1) return "grid count < 1";
+    // the per-cell mesh count has no getter: an unset one shows up as an infinite mesh size
+    if (nm > 0 && !std::isfinite(t->getMeshSize(0))) return "meshing not initialised (no mesh per cell)";
     for (int im = 0; im < nm && im < 2000; im++)
       for (int c = 0; c <= ndim; c++)
       {
@@ -1805,6 +1814,13 @@ std::string checkNode(const Node* n, int depth)
   std::string s = checkNode(n->getR1(), depth + 1);
   return s.empty() ? checkNode(n->getR2(), depth + 1) : s;
 }
+void leafFacies(const Node* n, int depth, std::vector<int>& out)
+{
+  if (n == nullptr || depth > 40) return;
+  if (n->getR1() == nullptr && n->getR2() == nullptr) { out.push_back(n->getFacies()); return; }
+  leafFacies(n->getR1(), depth + 1, out);
+  leafFacies(n->getR2(), depth + 1, out);
+}
 std::string consistentRule(const ASerializable* o)
 {
   const Rule* r = dynamic_cast<const Rule*>(o);
@@ -1812,6 +1828,14 @@ std::string consistentRule(const ASerializable* o)
   if (r->getMainNode() == nullptr) return "no main node";
   std::string s = checkNode(r->getMainNode(), 0);
   if (!s.empty()) return s;
+  std::vector<int> fac;
+  leafFacies(r->getMainNode(), 0, fac);
+  std::sort(fac.begin(), fac.end());
+  for (size_t i = 0; i < fac.size(); i++)
+  {
+    if (fac[i] < 1 || fac[i] > (int)fac.size()) return "facies " + std::to_string(fac[i]) + " outside 1.." + std::to_string(fac.size());
+    if (i > 0 && fac[i] == fac[i - 1]) return "facies " + std::to_string(fac[i]) + " on two leaves";
+  }
   if (!(r->getRho() >= -1. && r->getRho() <= 1.)) return "correlation outside [-1,1]";
   if (const RuleShift* q = dynamic_cast<const RuleShift*>(o))
     if (q->getShift().size() < 2) return "shift vector has fewer than 2 components";
